@@ -109,7 +109,8 @@ class IlluminaExonCorrector:
         overlapping = []
         appended = False
         for i in introns:
-            for s in self.short_introns:
+            # in coordinate order: of two equally close junctions the same one is taken whatever the order of the files
+            for s in sorted(self.short_introns):
                 x = abs(i[0] - s[0]) + abs(i[1] - s[1])
                 if overlaps(i, s):
                     #collect all overlapping introns to look for skipped exons
